@@ -51,6 +51,20 @@ theorem no_terminator_no_head (bs : Bytes) (h : ∀ pre post, bs ≠ pre ++ [13,
   obtain ⟨pre, hpre⟩ := readHead_ok_split bs .eof hd rest hok
   exact h pre rest hpre
 
+/-- a request whose buffered small body is incomplete is never delivered — stated with the framing
+    the connection thread uses for the request's version (`framingFor`: for a refused version the
+    `upgrade` option is not looked at, so this includes a refused upgrade offer with a small
+    Content-Length body). -/
+theorem incomplete_small_body_not_delivered_for (fuel idx : Nat) (s : St) (bs : Bytes) (fin : EndState)
+    (script : Script) (h : Head) (rest : Bytes) (fr : Framing) (n : Nat)
+    (hh : readHead bs fin = .ok (h, rest)) (hf : framingFor h.version h.headers = .ok fr)
+    (hk : fr.kind = .buffered n) (hs : rest.length < n) :
+    (runLoop (fuel + 1) idx s bs fin script).delivered = s.delivered ∧
+    (runLoop (fuel + 1) idx s bs fin script).out = s.out := by
+  have hd : decide (rest.length < n) = true := by simpa using hs
+  simp only [runLoop, hh, hf, hk, hd]
+  cases fin <;> exact ⟨rfl, rfl⟩
+
 /-- a request whose buffered small body is incomplete is never delivered. -/
 theorem incomplete_small_body_not_delivered (fuel idx : Nat) (s : St) (bs : Bytes) (fin : EndState) (script : Script)
     (h : Head) (rest : Bytes) (fr : Framing) (n : Nat)
@@ -58,9 +72,9 @@ theorem incomplete_small_body_not_delivered (fuel idx : Nat) (s : St) (bs : Byte
     (hk : fr.kind = .buffered n) (hs : rest.length < n) :
     (runLoop (fuel + 1) idx s bs fin script).delivered = s.delivered ∧
     (runLoop (fuel + 1) idx s bs fin script).out = s.out := by
-  have hd : decide (rest.length < n) = true := by simpa using hs
-  simp only [runLoop, hh, hf, hk, hd]
-  cases fin <;> exact ⟨rfl, rfl⟩
+  have hne : fr.kind ≠ .upgrade := by rw [hk]; intro h; cases h
+  exact incomplete_small_body_not_delivered_for fuel idx s bs fin script h rest fr n hh
+    (framingFor_of_framingOf_not_upgrade _ _ _ hf hne) hk hs
 
 /-- what was parsed from a prefix of the stream is what is parsed from the whole stream: a head
     complete in the prefix is the same head, and the position after it is the same position. -/
